@@ -236,6 +236,45 @@ theorem load_success_implies_shape (cfg : LoadCfg) (crown : InpCrown) (data : Va
     specOk cfg crown data = true :=
   (loadModel_ok cfg crown data args extra h).1
 
+/-- **An absent required key is reported with exactly the missing keys.**  For every flat dict layout
+    (all children field leaves), DISABLE or FIRST mode, any extra policy, and every dict datum in which
+    the present values are acceptable: if some required key is missing, the loader raises
+    `NoRequiredFieldsLoadError` whose `fields` are exactly the required keys absent from the datum and
+    whose `input_value` is the datum. -/
+theorem missing_required_error_exact (cfg : LoadCfg) (hmode : cfg.mode ≠ .all) (m : List (String × InpCrown))
+    (pol : Policy) (kvs : List (String × Val)) (hflat : allFields m = true)
+    (hpresent : ∀ k id, (k, InpCrown.field id) ∈ m → ∀ v, Val.lookup k kvs = some v → loaderOk cfg id v = true)
+    (hmissing : ((requiredKeys cfg m).filter fun k => !(Val.dict kvs).keys.contains k) ≠ []) :
+    loadModel cfg (.dict m pol) (.dict kvs) =
+      .error ⟨[], .noRequiredFields ((requiredKeys cfg m).filter fun k => !(Val.dict kvs).keys.contains k)
+        (.dict kvs)⟩ := by
+  -- a missing required key is the key of a required field leaf that the datum does not bind
+  have hmiss : ∃ k id, (k, InpCrown.field id) ∈ m ∧ (cfg.field id).required = true ∧
+      Val.lookup k kvs = none := by
+    obtain ⟨k, hk⟩ := List.exists_mem_of_ne_nil _ hmissing
+    simp only [List.mem_filter, Bool.not_eq_eq_eq_not, Bool.not_true] at hk
+    obtain ⟨id, hm, hr⟩ := requiredKeys_mem_allFields cfg m hflat k hk.1
+    refine ⟨k, id, hm, hr, ?_⟩
+    have hnot : k ∉ kvs.map (·.1) := by simpa [Val.keys] using hk.2
+    clear hk hmissing hpresent
+    induction kvs with
+    | nil => rfl
+    | cons a t ih =>
+      obtain ⟨k', v'⟩ := a
+      simp only [List.map_cons, List.mem_cons, not_or] at hnot
+      have hne : ¬ k' = k := fun h => hnot.1 h.symm
+      simp only [Val.lookup, hne, ↓reduceIte]
+      exact ih hnot.2
+  obtain ⟨st', hrun⟩ := loadDictChildren_missing cfg hmode kvs (requiredKeys cfg m) m hflat hpresent hmiss
+    false false [] {}
+  unfold loadModel loadBranch
+  rw [hrun]
+  have hw : ∀ (r : LState × Res Val), wrap cfg [] (Val.dict []) r = r := by
+    intro r
+    unfold wrap
+    simp
+  rw [hw]
+
 /-- **debug_trail and the traversal order change only reporting**: two configurations that differ in
     the debug mode only and both succeed pass the same arguments and the same extra data. -/
 theorem load_result_independent_of_debug_trail (cfg : LoadCfg) (m1 m2 : DebugTrail) (crown : InpCrown) (data : Val)
@@ -250,6 +289,28 @@ theorem load_result_independent_of_debug_trail (cfg : LoadCfg) (m1 m2 : DebugTra
   exact ⟨by rw [ha1, ha2, hA]; exact congrArg _ hT, by rw [he1, he2]⟩
 
 /-! ### unknown keys -/
+
+/-- **ExtraSkip: unknown keys are ignored.**  Two dict data that agree on the keys the root node knows —
+    i.e. that differ only in unknown keys, any number of them, anywhere in the dict — load identically:
+    the generated loader succeeds on one iff it succeeds on the other, with the same arguments. -/
+theorem extra_skip_ignores_unknown (cfg : LoadCfg) (m : List (String × InpCrown)) (d1 d2 : Val)
+    (h1 : d1.isMapping = true) (h2 : d2.isMapping = true)
+    (hagree : ∀ k ∈ knownKeys m, d1.getItem (.s k) = d2.getItem (.s k))
+    (args : List (String × Val)) (extra : Option Val) :
+    loadModel cfg (.dict m .skip) d1 = .ok args extra ↔ loadModel cfg (.dict m .skip) d2 = .ok args extra := by
+  obtain ⟨c1, c2, c3⟩ := dictReading_congr cfg d1 d2 m hagree
+  have hne : (Policy.skip != Policy.forbid) = true := by decide
+  have hok : specOk cfg (.dict m .skip) d1 = specOk cfg (.dict m .skip) d2 := by simp [specOk, h1, h2, c1, hne]
+  have hargs : specArgs cfg (.dict m .skip) d1 = specArgs cfg (.dict m .skip) d2 := by simp [specArgs, c2]
+  have hex : specExtra (.dict m .skip) d1 = specExtra (.dict m .skip) d2 := by simp [specExtra, c3]
+  rw [loadModel_ok_iff, loadModel_ok_iff, hok, hargs, hex]
+  simp only [extraOut, hex]
+
+/-- adding an unknown key to a dict datum changes nothing the node looks at -/
+theorem unknown_key_invisible (kvs : List (String × Val)) (k k' : String) (v : Val) (hk : k' ≠ k) :
+    (Val.dict (kvs ++ [(k, v)])).getItem (.s k') = (Val.dict kvs).getItem (.s k') := by
+  have hk2 : ¬ k = k' := fun h => hk h.symm
+  simp [Val.getItem, lookup_append, Val.lookup, hk2]
 
 /-- **ExtraForbid**: a successful load means that no dict node with the forbidding policy saw an
     unknown key (root node shown; nested nodes follow from `specOk` recursively). -/
@@ -347,13 +408,6 @@ theorem extra_targets_exact (cfg : LoadCfg) (m : List (String × InpCrown)) (dat
         refine ⟨x, hx, ?_⟩
         rw [hargs]
         simp [hmove, InpExtraMove.targetIds, InpCrown.policy, hm]
-
-/-- a crown is flat when it is a dict whose children are all leaves -/
-def flat : List (String × InpCrown) → Bool
-  | [] => true
-  | (_, .field _) :: r => flat r
-  | (_, .none) :: r => flat r
-  | _ => false
 
 /-- **flat layouts: the extra data is exactly the unknown items** (`…_partial` form of the statement
     "only unknown keys are delivered": it holds as is when no field is mapped to a nested path) -/
@@ -553,16 +607,6 @@ theorem dump_load_roundtrip (cfgL : LoadCfg) (cfgD : DumpCfg) (crown : OutCrown)
   rw [hlook id hid]
 
 /-! ## 7. Non-vacuity: concrete programs evaluated by the kernel -/
-
-private def exCfg (mode : DebugTrail) : LoadCfg :=
-  { mode, strict := true, move := .none,
-    fields := [{ id := "a" }, { id := "b", required := false, default := some (.int 7) }],
-    loader := fun _ v => match v with
-      | .int n => .ok (.int n)
-      | v => .error ⟨[], .typeLoad "int" v⟩ }
-
-private def exCrown : InpCrown :=
-  .dict [("x", .list [.field "a", .none] .forbid), ("B", .field "b")] .forbid
 
 /-- a nested path, a gap, an absent optional field with default -/
 example : loadModel (exCfg .all) exCrown (.dict [("x", .list [.int 1, .str "gap"])]) =
